@@ -22,7 +22,10 @@ MANIFEST = {
             "renders the object: Bip32PathError; TypeError 'unhashable' while the getters were lru_cached); the model honours "
             "them, the divergence is the finding. BIP-32 child derivation, P2PKH/P2WPKH "
             "encoders, Solana address decoding and the ed25519 on-curve test are oracles (reference implementations in "
-            "the harness). Brainwallet theorems are definitional.",
+            "the harness). Brainwallet theorems are definitional. LINKED: the *_concrete theorems instantiate the address encoders "
+            "(P2PKH = Base58Check over hash160, P2WPKH = the SegWit model of C10), SolAddrDecoder (Base58 + length + key test) and "
+            "UTF-8 with the concrete models; parameters looked up in the coin table are regenerated (Gen/LinkConsts.v); the "
+            "link.* entries run them inside the extracted model.",
     "technique": "Coq proof (radix-10 digit lemmas, group-law rewriting, induction over the bump search) + generated-constant "
                  "obligations (f-string shapes by AST) + extracted-model differential run + formula recomputation",
     "ref": "7/C20",
